@@ -107,6 +107,15 @@ Theorem C17_only_identified_reported : forall tm dl m port hosts work a i,
 Proof. exact only_identified_reported. Qed.
 Print Assumptions C17_only_identified_reported.
 
+(* the deadline of the run's context (Driver.Discover: MaxDiscoverDurationSeconds, see
+   discover_deadline) cuts the run off: no dial begins at or after it — whatever the hosts do and
+   however many addresses are left. (This is what the harness observes with connection-time-stamping
+   listeners when a run is started through Driver.Discover.) *)
+Theorem C17_no_dial_after_deadline : forall tm dl m port hosts work t,
+  In t (run_dial_times tm dl m port hosts work) -> t < dl.
+Proof. exact no_dial_after_deadline. Qed.
+Print Assumptions C17_no_dial_after_deadline.
+
 (* FULL STATEMENT WANTED (not provable, and false of the code as it is — see C17_run_time_refuted):
      forall hosts work, run_time (go_timers t s) dl m hosts work <= dl + allowance
    PARTIAL: over abstract timers only (wall-clock time is not expressible; the harness measures),
